@@ -9,6 +9,7 @@
 #include <vector>
 #include <map>
 #include <memory>
+#include <stdexcept>
 #include <sys/mman.h>
 #include <unistd.h>
 #include <time.h>
@@ -287,8 +288,11 @@ struct Engine {
 		// ---- system under test: CompiledVm::run / CompiledLightVm::run / CompiledVm::execute glue (vm_compiled*.cpp)
 		j->setFlags(flags);
 		ProgramConfiguration cfg2 = config;
-		if (c.light) j->generateProgramLight(vm->program, cfg2, (uint32_t)datasetOffset);
-		else j->generateProgram(vm->program, cfg2);
+		try {
+			if (c.light) j->generateProgramLight(vm->program, cfg2, (uint32_t)datasetOffset);
+			else j->generateProgram(vm->program, cfg2);
+		}
+		catch (const std::exception& ex) { o.agree = false; o.fault = true; o.kind = "fault:code generator threw"; o.detail = ex.what(); spadClean[c.spad] = false; return o; }
 		lastCodeEnd = rv64glue::codePosAfterProgram(j);
 		double t3 = nowS(); tGen += t3 - t2;
 		memset(&jreg, 0x5A, sizeof jreg);
